@@ -6,3 +6,4 @@ pub mod public;
 pub mod ffi;
 pub mod proto;
 pub mod decode;
+pub mod tables;
